@@ -11,6 +11,13 @@ git -C /repo worktree add -q --detach "$wt" HEAD || exit 3
 trap 'git -C /repo worktree remove --force "$wt" >/dev/null 2>&1; rm -rf "$wt"' EXIT
 git -C "$wt" apply "$patch" || { echo "PATCH-DOES-NOT-APPLY"; exit 3; }
 ( cd "$wt" && PYTHONPATH="$wt" timeout 900 /venv/bin/python -m pytest -q -p no:cacheprovider --timeout=900 --continue-on-collection-errors 2>&1 | tail -1 )
+if [ -n "${MUT_DEMO:-}" ]; then
+  # the demonstration that came with the change: must fail on the patched tree
+  case "$MUT_DEMO" in
+    *.sh) ( cd "$(dirname "$MUT_DEMO")" && timeout 600 bash "$MUT_DEMO" "$wt" >/dev/null 2>&1 ); echo "DEMO-PATCHED exit=$?" ;;
+    *)    ( cd "$wt" && PYTHONPATH="$wt" timeout 600 /venv/bin/python "$MUT_DEMO" "$wt" >/dev/null 2>&1 ); echo "DEMO-PATCHED exit=$?" ;;
+  esac
+fi
 rc=0
 for p in "$@"; do
   out="$(cd /verif && SHROUD_REPO="$wt" timeout 3000 ./vcheck "$p" --tier "${MUT_TIER:-quick}" --no-evidence ${MUT_ARGS:-} 2>&1)"
